@@ -32,6 +32,8 @@ const (
 	variantA    // one unsigned32
 	variantB    // two unsigned16 (same record size: the decoded shape reveals which was used)
 	variantC    // one unsigned32 with the same element id and length as A but enterprise 29305 (reverse element)
+	variantS    // one variable-length string (interfaceName) DECLARED variable on the wire
+	variantS4   // the same registry string declared with fixed length 4 on the wire (the library keeps the registry's variable length)
 )
 
 type entry struct {
@@ -73,6 +75,15 @@ func templatePkt(dom uint32, id uint16, variant int) []byte {
 		pkt = ref.U16(pkt, 1)
 		ie := common.IE(common.KU32)
 		return ref.FieldSpec(pkt, ie.ElementId, ie.Len, 0)
+	}
+	if variant == variantS || variant == variantS4 {
+		pkt = ref.U16(pkt, 1)
+		ie := common.IE(common.KString)
+		l := ie.Len
+		if variant == variantS4 {
+			l = 4
+		}
+		return ref.FieldSpec(pkt, ie.ElementId, l, 0)
 	}
 	if variant == variantC {
 		pkt = ref.U16(pkt, 1)
@@ -118,9 +129,9 @@ func Check_History() {
 		dom := sx.U32("domain")
 		id := sx.U16("templateID")
 		sx.Assume(id >= 256)
-		switch sx.Choose("message", 4) {
-		case 0, 1:
-			variant := []int{variantA, variantB, variantC}[sx.Choose("variant", 3)]
+		switch sx.Choose("message", 3) + 1 {
+		case 1:
+			variant := []int{variantA, variantB, variantC, variantS, variantS4}[sx.Choose("variant", 5)]
 			_, err := cp.VerifDecodePacket(templatePkt(dom, id, variant), "1.2.3.4:5")
 			sx.Assert(err == nil, "valid-template-refused")
 			m.set(dom, id, variant)
@@ -133,8 +144,12 @@ func Check_History() {
 			v := sx.U32("value")
 			pkt := ref.Header(0, 0, 0, dom, id, 0)
 			pkt = ref.U32(pkt, v)
-			msg, err := cp.VerifDecodePacket(pkt, "1.2.3.4:5")
 			i := m.find(dom, id)
+			if i >= 0 && (m.es[i].variant == variantS || m.es[i].variant == variantS4) {
+				// the same 4 bytes read as a string field: 1-byte length 3 + 3 bytes
+				sx.Assume(v>>24 == 3)
+			}
+			msg, err := cp.VerifDecodePacket(pkt, "1.2.3.4:5")
 			if i < 0 {
 				sx.Assert(err != nil, "data-decoded-without-a-template-for-its-key")
 				sx.Reach("data-rejected")
@@ -144,7 +159,12 @@ func Check_History() {
 			recs := msg.GetSet().GetRecords()
 			sx.Assert(len(recs) == 1, "one-record")
 			el := recs[0].GetOrderedElementList()
-			if m.es[i].variant == variantA || m.es[i].variant == variantC {
+			if m.es[i].variant == variantS || m.es[i].variant == variantS4 {
+				sx.Assert(len(el) == 1, "decoded-with-the-wrong-template")
+				want := string([]byte{byte(v >> 16), byte(v >> 8), byte(v)})
+				sx.Assert(el[0].GetStringValue() == want, "string-decoded-under-another-templates-influence")
+				sx.Reach("data-decoded-S")
+			} else if m.es[i].variant == variantA || m.es[i].variant == variantC {
 				sx.Assert(len(el) == 1, "decoded-with-the-wrong-template")
 				sx.Assert(el[0].GetUnsigned32Value() == v, "value-A")
 				wantEnt := uint32(0)
@@ -175,7 +195,7 @@ func Check_History() {
 					want = 2
 				}
 				sx.Assert(len(t.IEs) == want, "stored-template-shape")
-				if e.variant != variantB {
+				if e.variant == variantA || e.variant == variantC {
 					wantEnt := uint32(0)
 					if e.variant == variantC {
 						wantEnt = 29305
